@@ -233,7 +233,12 @@ fn cmd_run(args: &[String]) -> i32 {
             // determinism re-check: same case again, same observable hash
             let o2 = run_one(&case, &format!("c{i}r"));
             rechecks += 1;
-            if o2.hash != o.hash || o2.violation.is_some() != o.violation.is_some() {
+            // (a sweep that was cut short by its time bound is not comparable)
+            let cut_short = |x: &props::Outcome| x.stats.c.keys().any(|k| k.ends_with("_cut_short_by_time"));
+            if cut_short(&o) || cut_short(&o2) {
+                // not counted as a determinism check
+                rechecks -= 1;
+            } else if o2.hash != o.hash || o2.violation.is_some() != o.violation.is_some() {
                 harness_errors.push(json!({"index": i, "case_seed": cs, "error": format!("non-deterministic: hash {} vs {}", o.hash, o2.hash)}));
             }
         }
